@@ -57,6 +57,17 @@ def run(ctx):
         evs = v.path_events(p)
         alias = [e for e in evs if e.kind == 'assign' and e.decl and e.rhs[0] == 'cond']
         ff = [e for e in evs if e.kind == 'call' and e.q in ('std::find_if', 'boost::range::find_if')]
+        if len(ff) == 0 and len(alias) <= 1:
+            # a way out of the search that never looked at the queue: whatever it returns, an older matching communication may have been skipped
+            conds = [('%s%s' % ('' if e.pol else '!', ex.pretty(e.atom))) for e in evs if e.kind == 'branch']
+            ret = [e for e in evs if e.kind == 'return']
+            if any(e.kind == 'branch' and e.pol and e.atom[0] == 'truthy' and e.atom[1][0] == 'call' and e.atom[1][1].endswith('::empty') and
+                   (e.atom[1][2] in [a_.lhs for a_ in alias] or (e.atom[1][2][0] == 'field' and e.atom[1][2][2] in qnames)) for e in evs) and ret and ret[0].val is not None and 'null' in repr(ret[0].val):
+                continue        # nothing to scan in an empty queue: same answer as the scan
+            ctx.violation('R1', 'find_matching_comm returns without scanning the queue', where(fmc, ret[0].line if ret else None),
+                          'on the path %s the result (%s) is decided without the front-to-back scan: the oldest matching communication can be missed' % (' && '.join(conds)[:200] or '(unconditional)', ex.pretty(ret[0].val) if ret and ret[0].val else 'void'),
+                          key='R1|find_matching_comm|scan skipped')
+            continue
         if len(ff) != 1 or len(alias) != 1:
             ctx.unrecognised('R1', 'find_matching_comm: queue selection / search idiom not recognised')
             continue
